@@ -483,6 +483,18 @@ func c14Large(c *hx.Client, newConn func() *hx.Client, grams []*hx.CmdGrammar, h
 		{"SET <1 MB key> v", []string{"SET", strings.Repeat("k", 1<<20), "v"}},
 		{"GET <1 MB key>", []string{"GET", strings.Repeat("k", 1<<20)}},
 	}
+	// a request the storage refuses with an error of its own while the command runs: LINSERT
+	// before the same element until no position is left between two neighbours (the recorded
+	// finding about lists; whatever the outcome, it is one reply)
+	if known["linsert"] && known["rpush"] {
+		for _, st := range [][]string{{"DEL", "exl"}, {"RPUSH", "exl", "a"}, {"RPUSH", "exl", "b"}} {
+			reqs = append(reqs, big{strings.Join(st, " "), st})
+		}
+		for j := 0; j < 60; j++ {
+			st := []string{"LINSERT", "exl", "BEFORE", "b", fmt.Sprintf("x%d", j)}
+			reqs = append(reqs, big{strings.Join(st, " "), st})
+		}
+	}
 	sendOne := func(cl *hx.Client, b big, what string) (hx.RV, bool) {
 		*history = append(*history, []string{b.label})
 		if err := cl.Send(toBytes(b.args)); err != nil {
@@ -1266,6 +1278,29 @@ func c13Bytes(grams []*hx.CmdGrammar, one func(int, []string) bool) {
 			}
 		}
 	}
+	// more elements than a default page, asked for with no COUNT, a zero, a negative one, and with
+	// an explicitly empty pattern
+	if !send("DEL", "pg_e", "pg_z", "pg_h") {
+		return
+	}
+	for j := 0; j < 15; j++ {
+		n := fmt.Sprintf("m%02d", j)
+		for _, st := range [][]string{{"SADD", "pg_e", n}, {"ZADD", "pg_z", strconv.Itoa(j % 4), n}, {"HSET", "pg_h", n, "v"}} {
+			if !send(st...) {
+				return
+			}
+		}
+	}
+	for _, tail := range [][]string{{}, {"COUNT", "0"}, {"COUNT", "-1"}, {"COUNT", "-100"}, {"MATCH", ""}, {"MATCH", "", "COUNT", "100"}, {"COUNT", "100", "MATCH", ""}, {"MATCH", "*", "COUNT", "-1"}} {
+		for _, head := range [][]string{{"SSCAN", "pg_e", "0"}, {"ZSCAN", "pg_z", "0"}, {"HSCAN", "pg_h", "0"}, {"SCAN", "0"}} {
+			if !send(append(append([]string{}, head...), tail...)...) {
+				return
+			}
+		}
+	}
+	if !send("DEL", "pg_e", "pg_z", "pg_h") {
+		return
+	}
 	// pattern classes that hold "!", "^" and "[" themselves, over names that consist of them
 	for _, name := range []string{"!", "^", "!x", "^x", "[", "k!"} {
 		for _, st := range [][]string{{"SET", name, "v"}, {"SADD", "be", name}, {"ZADD", "bz", "1", name}, {"HSET", "bh", name, "v"}} {
@@ -1864,6 +1899,8 @@ func pageNotFull(args []string, page hx.RV, paired bool) bool {
 		if strings.ToLower(args[i]) == "count" {
 			if n, err := strconv.Atoi(args[i+1]); err == nil && n > 0 {
 				count = n
+			} else if err == nil && n < 0 {
+				count = 1 << 30 // a negative count is "no limit" to the documented call: the page is everything
 			}
 		}
 	}
